@@ -168,7 +168,7 @@ def l1_random(ctx, n_expr, dis):
     cases = []
     for k in range(n_expr):
         sigs = make_sigs(rng, rng.randint(2, 4), maxw=rng.choice([3, 5, 9]))
-        g = ExprGen(rng, sigs, lowered=True)
+        g = ExprGen(rng, sigs, lowered=True, tame=(k % 3 == 0))
         e = g.gen(rng.randint(1, 3))
         used = used_signals(e)
         envs, exh = expr_envs(rng, sigs, used, max_exh_bits=8 if ctx.tier == "quick" else 11)
@@ -429,10 +429,10 @@ def signed_full_slices(stmt_lists):
     return found
 
 
-def random_module_build(seed, maxw):
+def random_module_build(seed, maxw, tame=False):
     def build():
         rng = random.Random(seed)
-        m, ios = L.random_module(rng, maxw=maxw)
+        m, ios = L.random_module(rng, maxw=maxw, tame=tame)
         f = m.get_fragment()
         ios = sorted(ios, key=lambda s: s.duid)
         return f, ios, ["sys"]
@@ -445,8 +445,9 @@ def l2_random(ctx, n_mod, cycles, dis):
                witnessed=0, uninit_output_reg=0, lowering_known_region=0)
     for k in range(n_mod):
         seed = rng.randrange(1 << 30)
-        r = run_module_case(ctx.lean, rng, "randmod%d" % k, random_module_build(seed, rng.choice([3, 5, 9])),
-                            cycles, dis)
+        tame = k % 3 != 0
+        r = run_module_case(ctx.lean, rng, "randmod%d%s" % (k, "t" if tame else "w"),
+                            random_module_build(seed, rng.choice([3, 5, 9]), tame), cycles, dis)
         tot["modules"] += 1
         if r.status.startswith("unsupported"):
             tot["unsupported"] += 1
@@ -629,6 +630,16 @@ def correspond(ctx):
         l2_random(ctx, 40 if quick else 400, 40 if quick else 120, dis)
     if len(dis) <= 10:
         l2_cores(ctx, 200 if quick else 2000, dis)
+    # independent golden reading (also the failing-input oracle): must accept the unchanged tree
+    t0 = time.time()
+    n1, bad1 = oracle_expressions(ctx.rng, 300 if quick else 3000)
+    n2, bad2 = oracle_modules(ctx.rng, 15 if quick else 150, 40)
+    ctx.cov.add_cases("independent golden reading (python) of the real text vs real Evaluator, safe domain",
+                      n1 + n2, n1 + n2, exhaustive=False)
+    ctx.log("golden reading: %d expression cases, %d module cycles, %.1fs" % (n1, n2, time.time() - t0))
+    for bad in (bad1, bad2):
+        if bad is not None:
+            dis.append(Dis("golden-oracle", **bad))
     ctx.rule = ("L1: one case = one (expression, valuation) evaluated by the real Evaluator, Lean evalF and Lean evalV "
                 "on the real text; non-trivial = Fits holds (the theorem applies and equality was checked). "
                 "L2: one case = one clock cycle of a module with all signals compared three ways.")
@@ -638,13 +649,165 @@ def correspond(ctx):
     return dis
 
 
+# ----------------------------------------------------------------------------------------------------------
+# Independent oracle (no Lean model involved): real Evaluator vs the golden reading of the real text
+# ----------------------------------------------------------------------------------------------------------
+
+def oracle_expressions(rng, n_expr, log=None):
+    """Safe-domain expressions: real `_generate_expression` text read by harness/c01lib.v_eval vs the real
+    Evaluator.  Returns (cases evaluated, first failing input or None)."""
+    n = 0
+    for k in range(n_expr):
+        us = make_sigs(rng, rng.randint(2, 3), maxw=rng.choice([3, 5, 8]), p_signed=0.0, prefix="u")
+        ss = make_sigs(rng, rng.randint(0, 2), maxw=rng.choice([3, 5]), p_signed=1.0, prefix="t")
+        sigs = us + ss
+        g = L.SafeGen(rng, us, ss)
+        e = g.top(rng.randint(1, 3))
+        if len(e) > 40:
+            continue
+        ids = SigIds()
+        for s in sigs:
+            ids.get(s)
+        ns = FlatNS(ids)
+        try:
+            text, _ = _generate_expression(ns, e)
+            tree, _ = L.build_vtree(parse_vexpr(text, ns.names()))
+            L.v_size(tree)
+        except (L.ParseError, L.Unsupported, TypeError) as ex:
+            return n, {"oracle": "golden-reading", "text": None, "error": repr(ex)}
+        used = used_signals(e)
+        envs, _ = expr_envs(rng, sigs, used, max_exh_bits=9, nrand=40)
+        lw = rng.choice([1, 3, 8, 12, 20])
+        ev = Evaluator([], {})
+        for env in envs:
+            ev.signal_values = {s: v for s, v in zip(sigs, env)}
+            real = truncate(ev.eval(e), lw, False)
+            benv = {i: v & ((1 << s.nbits) - 1) for i, (s, v) in enumerate(zip(sigs, env))}
+            gold = L.v_assign_value(tree, benv, lw)
+            n += 1
+            if real != gold:
+                return n, {"oracle": "golden-reading", "verilog_text": text, "target_width": lw,
+                           "signals": {"s%d" % i: {"width": s.nbits, "signed": s.signed, "value": v}
+                                       for i, (s, v) in enumerate(zip(sigs, env))},
+                           "simulator_stores": real, "verilog_stores": gold,
+                           "what": "an expression without any intermediate-overflow site is stored differently by "
+                                   "the real Evaluator and by the emitted Verilog text (IEEE 1364 reading)"}
+    return n, None
+
+
+def safe_module(rng, maxw=6):
+    """Unsigned, tame module: every site fits statically, so text and simulator must agree on every cycle."""
+    from migen import Module, ClockDomain, Signal
+    m = Module()
+    m.clock_domains.cd_sys = ClockDomain("sys")
+    ins = make_sigs(rng, rng.randint(2, 3), maxw=maxw, prefix="i", p_signed=0.0)
+    regs = [Signal(rng.randint(1, maxw), name_override="r%d" % k, reset=rng.choice([0, 1])) for k in range(rng.randint(1, 3))]
+    combs = []
+    readable = ins + regs
+    for k in range(rng.randint(1, 2)):
+        c = Signal(rng.randint(1, maxw), name_override="c%d" % k)
+        g = L.SafeGen(rng, list(readable), [])
+        sg = L.StmtGen(rng, SafeAdapter(g))
+        m.comb += sg.stmts([c], rng.randint(0, 2))
+        combs.append(c)
+        readable = readable + [c]
+    g = L.SafeGen(rng, list(readable), [])
+    sg = L.StmtGen(rng, SafeAdapter(g))
+    m.sync += sg.stmts(regs, rng.randint(1, 2))
+    # internal registers only (an `output reg` port carries no initialiser), comb signals as ports
+    ios = set(ins) | set(combs) | {m.cd_sys.clk, m.cd_sys.rst}
+    return m, ios
+
+
+class SafeAdapter:
+    """Gives SafeGen the interface StmtGen expects from ExprGen."""
+    tame = True
+
+    def __init__(self, g):
+        self.g = g
+
+    def gen(self, depth):
+        return self.g.top(max(1, depth))
+
+    def boolean(self, depth):
+        return self.g.boolean(depth)
+
+    def atom(self):
+        return self.g.atom()
+
+
+def oracle_modules(rng, n_mod, cycles):
+    """Safe-domain modules: the real simulator on the ORIGINAL design vs the golden reading (PyVSim) of the text
+    the real convert emitted, ports and registers, every cycle."""
+    from migen.fhdl.tools import list_targets
+    from netlist import Netlist
+    n = 0
+    for k in range(n_mod):
+        seed = rng.randrange(1 << 30)
+
+        def build():
+            r = random.Random(seed)
+            m, ios = safe_module(r)
+            return m.get_fragment(), sorted(ios, key=lambda s: s.duid)
+        fA, iosA = build()
+        fB, iosB = build()
+        try:
+            cap = L.convert_capture(fB, iosB)
+            ids, sigs, groups, secs = L.ser_module(cap)
+            name_ids = {cap.ns.get_name(s): ids.get(s) for s in sigs}
+            mt = L.parse_module(cap.text, name_ids)
+            if mt.unsupported:
+                continue
+            pv = L.PyVSim(mt, name_ids)
+        except (L.ParseError, L.Unsupported, KeyError, IndexError) as ex:
+            return n, {"oracle": "golden-module", "error": repr(ex), "seed": seed}
+        nl = Netlist(fA, clocks=("sys",))
+        targets = list_targets(cap.f)
+        clks = [cd.clk for cd in cap.f.clock_domains]
+        in_idx = [j for j, s in enumerate(iosB) if s not in targets and not any(s is c for c in clks)]
+        out_idx = [j for j, s in enumerate(iosB) if s in targets]
+        rsts = [cd.rst for cd in cap.f.clock_domains if cd.rst is not None]
+        trace = []
+        prev = None
+        for t in range(cycles):
+            vals = stimulus(rng, [iosB[j] for j in in_idx], rsts, prev, t)
+            prev = vals
+            trace.append(vals)
+            for j, v in zip(in_idx, vals):
+                nl.set(iosA[j], v)
+                pv.state[ids.get(iosB[j])] = v & ((1 << iosB[j].nbits) - 1)
+            nl.settle()
+            pv.settle()
+            n += 1
+            for j in out_idx:
+                a = nl.getu(iosA[j])
+                b = pv.state[ids.get(iosB[j])]
+                if a != b:
+                    t0 = cap.text
+                    return n, {"oracle": "golden-module", "seed": seed, "cycle": t, "port": cap.ns.get_name(iosB[j]),
+                               "simulator": a, "verilog": b,
+                               "inputs": [cap.ns.get_name(iosB[j2]) for j2 in in_idx], "trace": trace,
+                               "verilog_text": t0[t0.index("module"):][:3000],
+                               "what": "the real simulator on the design and the IEEE-1364 reading of the emitted "
+                                       "text differ on a port (no intermediate-overflow site in this module)"}
+            nl.tick(("sys",))
+            pv.tick({ids.get(c) for c in clks})
+    return n, None
+
+
 def search(ctx, disagreements, proof_info):
-    """A disagreement of kind printer/theorem-contradicted/lowering/stepF already carries the concrete failing
-    input (expression text + valuation, or module + cycle); return the first one as the failing input."""
+    """Failing-input search with oracles that do not use the Lean model: (1) the golden reading of the real
+    text vs the real Evaluator on expressions / modules without overflow sites; (2) if that finds nothing, a
+    correspondence disagreement that is itself a concrete semantic difference (values on a valuation)."""
+    rng = random.Random(ctx.seed + 77)
+    n1, bad = oracle_expressions(rng, 3000)
+    if bad is None:
+        n2, bad = oracle_modules(rng, 150, 40)
+    if bad is not None:
+        return bad
     for d in disagreements:
         j = d.to_json()
-        if j["kind"] in ("theorem-contradicted", "lowering", "printer", "module-printer", "module-decls",
-                         "new-overflow-site", "evalF", "stepF"):
+        if j["kind"] in ("lowering",):
             return j
     return None
 
